@@ -676,7 +676,12 @@ fn push_cont(rng: &mut Rng, w: &mut CaseWriter, cfg: &StreamCfg) {
     let res = nv::guarded(AssertUnwindSafe(|| -> Option<Vec<(usize, String)>> {
         let (h, recs) = parse_sam(&text).ok()?;
         let file = write_cram(&o, &s.refs, &h, &recs).ok()?;
-        let wk = walk::walk_file(&file).ok()?;
+        // a file that was written but cannot be walked is kept as a case (descriptor `-`), so
+        // that wrong container lengths are reported by run_cont instead of being skipped here
+        let wk = match walk::walk_file(&file) {
+            Ok(wk) => wk,
+            Err(_) => return Some(vec![(1, "-".to_string())]),
+        };
         Some(
             wk.containers
                 .iter()
